@@ -120,6 +120,21 @@ type lockExec struct {
 	monitors []string
 	// statistics for the non-triviality rule / class
 	nBatch, nMulti, nFailedKnown, nEvicted, nRequeued, nReplaced, nPeekHit, skipped int
+	nIdleEq, nExpEq int  // refresh ticks with an entry exactly on the idle / expiry boundary
+	jitter          bool // a step took longer in real time than the rebase unit: the case must be re-run
+}
+
+// rebaseUnit: every period is a multiple of it, and a step must take less real time than it
+const rebaseUnit = 100 * time.Millisecond
+
+// stamped runs a step that reads time.Now() and moves the stamps it wrote onto the virtual time axis
+func (x *lockExec) stamped(f func()) {
+	t0 := time.Now()
+	f()
+	_, ok := x.ccp.VerifRebaseStamps(t0, x.vnow, rebaseUnit)
+	if !ok || time.Since(t0) >= rebaseUnit {
+		x.jitter = true
+	}
 }
 
 func newLockExec(cfg cfgIn) *lockExec {
@@ -173,10 +188,10 @@ func (x *lockExec) loopTail() {
 	}
 }
 
-func (x *lockExec) advance(secs int64) {
-	if secs > 0 {
-		x.ccp.VerifShiftStamps(time.Duration(secs * second))
-		x.vnow += secs * second
+// advance moves the virtual clock; adv is in half seconds
+func (x *lockExec) advance(adv int64) {
+	if adv > 0 {
+		x.vnow += adv * (second / 2)
 	}
 }
 
@@ -256,7 +271,7 @@ func (x *lockExec) exec(op opIn) bool {
 				x.nReplaced++
 			}
 		}
-		x.ccp.VerifHandleInstanceInfo(info)
+		x.stamped(func() { x.ccp.VerifHandleInstanceInfo(info) })
 		x.inflight = x.inflight[1:]
 		x.loopTail()
 		label = hlib.App("HandleInfo", hlib.Z(x.vnow))
@@ -271,7 +286,18 @@ func (x *lockExec) exec(op opIn) bool {
 	case "refresh":
 		x.advance(op.Adv)
 		before := x.ccp.VerifSnapshot()
-		x.ccp.VerifDoRefresh(time.Now())
+		idleEq, expEq := false, false
+		for _, st := range x.ccp.VerifStamps() {
+			idleEq = idleEq || x.vnow-st.Access == x.cfg.Idle
+			expEq = expEq || (x.vnow-st.Access <= x.cfg.Idle && st.Expires == x.vnow)
+		}
+		if idleEq {
+			x.nIdleEq++
+		}
+		if expEq {
+			x.nExpEq++
+		}
+		x.ccp.VerifDoRefresh(time.Unix(0, x.vnow))
 		after := x.ccp.VerifSnapshot()
 		nb := len(before.ToLookupIPs)
 		if len(after.ToLookupIPs) < nb || fmt.Sprint(after.ToLookupIPs[:nb]) != fmt.Sprint(before.ToLookupIPs) {
@@ -286,7 +312,9 @@ func (x *lockExec) exec(op opIn) bool {
 		tr["requeued"], tr["evicted"] = order, len(before.Cache)-len(after.Cache)
 	case "peek":
 		x.advance(op.Adv)
-		inst, hit := x.ccp.Peek(gostatsd.Source(op.S))
+		var inst *gostatsd.Instance
+		var hit bool
+		x.stamped(func() { inst, hit = x.ccp.Peek(gostatsd.Source(op.S)) })
 		if hit {
 			x.nPeekHit++
 		}
@@ -309,11 +337,16 @@ func (x *lockExec) exec(op opIn) bool {
 	for i, e := range snap.Cache {
 		ce[i] = hlib.Pair(hlib.Bytes(string(e.IP)), coqInst(e.Instance))
 	}
-	obs := hlib.App("Obs", out, hlib.List(ce), hlib.ZU(snap.Positive), hlib.ZU(snap.Negative), hlib.ZU(snap.RefreshPositive),
+	stamps := x.ccp.VerifStamps()
+	se := make([]string, len(stamps))
+	for i, st := range stamps {
+		se[i] = hlib.Pair(hlib.Bytes(string(st.IP)), hlib.Pair(hlib.Z(st.Expires), hlib.Z(st.Access)))
+	}
+	obs := hlib.App("Obs", out, hlib.List(ce), hlib.List(se), hlib.ZU(snap.Positive), hlib.ZU(snap.Negative), hlib.ZU(snap.RefreshPositive),
 		hlib.ZU(snap.RefreshNegative), coqSources(snap.ToLookupIPs), coqInfos(snap.ToReturnInfo))
 	x.steps = append(x.steps, hlib.Pair(label, obs))
 	x.done = append(x.done, op)
-	tr["now_s"] = x.vnow / second
+	tr["now_ms"] = x.vnow / int64(time.Millisecond)
 	tr["cache"], tr["pos"], tr["neg"] = len(snap.Cache), snap.Positive, snap.Negative
 	x.trace = append(x.trace, tr)
 	return true
@@ -321,6 +354,9 @@ func (x *lockExec) exec(op opIn) bool {
 
 func (x *lockExec) result(in input) hlib.Case {
 	c := hlib.Case{Input: in, Monitors: x.monitors}
+	if x.jitter { // six attempts were all disturbed: nothing exact can be compared (never seen)
+		x.steps = nil
+	}
 	c.Coq = hlib.App("Case", hlib.App("Config", hlib.Z(x.cfg.TTL), hlib.Z(x.cfg.NegTTL), hlib.Z(x.cfg.Idle), hlib.Z(int64(x.cfg.Limit))),
 		hlib.List(x.steps))
 	tr := x.trace
@@ -339,23 +375,27 @@ func (x *lockExec) result(in input) hlib.Case {
 	add(x.nReplaced > 0, "replaced")
 	add(x.nEvicted > 0, "evict")
 	add(x.nRequeued > 0, "requery")
+	add(x.nIdleEq > 0, "idle-boundary")
+	add(x.nExpEq > 0, "expiry-boundary")
 	c.Class = fmt.Sprintf("lock/limit=%d/%s", x.cfg.Limit, strings.Join(flags, "+"))
 	c.Nontrivial = x.nBatch >= 2 && x.nFailedKnown > 0 && (x.nEvicted > 0 || x.nRequeued > 0)
+	if x.jitter {
+		c.Class, c.Nontrivial = "lock/clock-jitter", false
+	}
 	return c
 }
 
 // runLock replays a recorded op list (ops that are not enabled are skipped, so that shrinking can
-// delete any subset).  The whole case is repeated if it took so long in real time that the drift
-// of the wall clock could matter for the simulated half-second margins.
+// delete any subset).  The whole case is repeated if one step took so long in real time (>= 100 ms)
+// that the mapping of its wall-clock stamps onto virtual time is not exact.
 func runLock(in input) hlib.Case {
 	var x *lockExec
-	for try := 0; try < 4; try++ {
-		t0 := time.Now()
+	for try := 0; try < 6; try++ {
 		x = newLockExec(in.Cfg)
 		for _, op := range in.Ops {
 			x.exec(op)
 		}
-		if time.Since(t0) < 250*time.Millisecond {
+		if !x.jitter {
 			break
 		}
 	}
@@ -367,19 +407,20 @@ func runLock(in input) hlib.Case {
 // generator: ops are chosen among the enabled ones while executing
 
 var sourcePool = []string{"10.0.0.1", "10.0.0.2", "10.0.0.3", "a", "", "host-b", "10.0.0.10"}
+// periods in half seconds
 var halfSeconds = func(ks ...int64) []int64 {
 	out := make([]int64, len(ks))
 	for i, k := range ks {
-		out[i] = k*second + second/2
+		out[i] = k * (second / 2)
 	}
 	return out
 }
 
 func genCfg(r *hlib.Rand) cfgIn {
 	return cfgIn{
-		TTL:    hlib.Pick(r, halfSeconds(1, 2, 3)),
-		NegTTL: hlib.Pick(r, halfSeconds(0, 0, 1, 4)),
-		Idle:   hlib.Pick(r, halfSeconds(2, 4, 7)),
+		TTL:    hlib.Pick(r, halfSeconds(2, 3, 4, 6, 7)),
+		NegTTL: hlib.Pick(r, halfSeconds(0, 1, 2, 2, 8)),
+		Idle:   hlib.Pick(r, halfSeconds(4, 5, 8, 14)),
 		Limit:  r.Range(1, 5),
 	}
 }
@@ -405,8 +446,10 @@ func (g *lockGen) freshInstance(s string) *instIn {
 	return i
 }
 
+// advance of the virtual clock before an op, in half seconds: periods and advances share the half
+// second grid, so refresh ticks fall exactly on idle / expiry boundaries as often as next to them
 func (g *lockGen) adv() int64 {
-	return hlib.Pick(g.r, []int64{0, 0, 0, 0, 0, 1, 1, 2, 3, 5})
+	return hlib.Pick(g.r, []int64{0, 0, 0, 0, 0, 1, 2, 2, 2, 3, 4, 4, 6, 10})
 }
 
 func (g *lockGen) batchOp(pending []gostatsd.Source) opIn {
@@ -466,7 +509,6 @@ func genLock(r *hlib.Rand, tier string) hlib.Case {
 	// phases make the interesting situations frequent: fill, then let time pass around refreshes
 	var ops []opIn
 	x := newLockExec(cfg)
-	t0 := time.Now()
 	for len(ops) < nops {
 		weights := map[string]int{"submit": 5, "send": 6, "batch": 3, "handle": 7, "return": 4, "refresh": 3, "peek": 3}
 		if len(x.pending) >= cfg.Limit {
@@ -510,8 +552,8 @@ func genLock(r *hlib.Rand, tier string) hlib.Case {
 		ops = append(ops, op)
 	}
 	in := input{Kind: "lock", Cfg: cfg, Ops: ops}
-	if time.Since(t0) >= 250*time.Millisecond {
-		return runLock(in) // too slow in real time: replay
+	if x.jitter {
+		return runLock(in) // a step was too slow in real time: replay
 	}
 	return x.result(in)
 }
